@@ -17,7 +17,8 @@ import (
 
 // Mutation damages the payload of one block. Positions are per-mille of the payload.
 type Mutation struct {
-	Kind  string `json:"kind"` // flip, subst, swap, zero, copy
+	Kind  string `json:"kind"` // flip, subst, swap, zero, copy; hashfill: every byte of the stored hash field of the block := byte(Val)
+	Body  bool   `json:"body,omitempty"` // positions are relative to the whole block body (mode byte, pre-entropy length, stored hash, coded data) instead of the coded data only
 	Block int    `json:"block"`
 	Off   int    `json:"off"`  // 0..999
 	Off2  int    `json:"off2"` // second position (swap, copy)
@@ -51,9 +52,23 @@ func applyMutation(b *kfmt.Bits, st *kfmt.Stream, m Mutation) bool {
 	}
 	k := st.Blocks[((m.Block%len(st.Blocks))+len(st.Blocks))%len(st.Blocks)]
 	lo, hi := k.PayloadStart, k.End
+	if m.Body {
+		lo = k.LenPrefixEnd
+	}
 	n := hi - lo
 	if n <= 0 {
 		return false
+	}
+	if m.Kind == "hashfill" {
+		changed := false
+		for p := k.HashStart; p < k.HashEnd; p++ {
+			bit := uint64(byte(m.Val)>>(7-uint(p-k.HashStart)%8)) & 1
+			if b.Get(p) != bit {
+				b.Set(p, bit)
+				changed = true
+			}
+		}
+		return changed
 	}
 	pos := lo + (m.Off%1000)*n/1000
 	pos2 := lo + (m.Off2%1000)*n/1000
@@ -258,6 +273,9 @@ func c02Eval(r *vrt.Run, c C02Case, pre *c02Pre) c02Out {
 	labels := []string{"kind:" + kind, o.outcome, "entropy:" + c.Cfg.Entropy, fmt.Sprintf("ck:%d", c.Cfg.Checksum), "rjobs:" + jobsClass(c.ReadJobs)}
 	for _, m := range c.Muts {
 		labels = append(labels, "mut:"+m.Kind)
+		if m.Body {
+			labels = append(labels, "mut:anywhere-in-block-body")
+		}
 	}
 	r.Eval(vrt.HashOf(c), o.nontrivial, labels...)
 	if o.nontrivial && r.WantSample() {
@@ -291,6 +309,17 @@ func drawC02(t *rapid.T, maxBlock int) C02Case {
 			c.Muts = append(c.Muts, Mutation{Kind: rapid.SampledFrom([]string{"flip", "flip", "subst", "swap", "zero", "copy"}).Draw(t, "mkind"),
 				Block: rapid.IntRange(0, nb-1).Draw(t, "mblock"), Off: rapid.IntRange(0, 999).Draw(t, "moff"), Off2: rapid.IntRange(0, 999).Draw(t, "moff2"),
 				Len: rapid.IntRange(1, 200).Draw(t, "mlen"), Val: rapid.Uint64().Draw(t, "mval")})
+		}
+		switch rapid.IntRange(0, 9).Draw(t, "hdrpart") {
+		case 0:
+			// the stored hash of an already damaged block is replaced by a constant fill (a reader that
+			// takes some value of the field for "no checksum" would accept the damaged block)
+			c.Muts = append(c.Muts, Mutation{Kind: "hashfill", Block: c.Muts[0].Block,
+				Val: uint64(rapid.SampledFrom([]int{0, 0, 0xFF, 1, 0x80, 0x55}).Draw(t, "fill"))})
+		case 1, 2:
+			// one mutation anywhere in the block body: mode byte, skip flags, pre-entropy length, stored hash, coded data
+			c.Muts[len(c.Muts)-1].Body = true
+			c.Muts[len(c.Muts)-1].Off = rapid.OneOf(rapid.IntRange(0, 30), rapid.IntRange(0, 999)).Draw(t, "boff")
 		}
 	}
 	c.ReadJobs = gen.DrawJobs(t, 8, "readJobs")
